@@ -144,6 +144,59 @@ func TestVerif_C16(t *testing.T) {
 				}
 				c.Count("reconnect_probes", 1)
 			}
+			// outage probe: the connection has ended (no frames flow) but the daemon lives on; the
+			// service keeps answering test-recording and snapshot requests, and the next connection
+			// is served as usual. A request path that waits for the frame loop would wedge the
+			// service mutex here.
+			{
+				nreq := 2 + int(idx%3)
+				outage := make(chan string, 1)
+				go func() {
+					for i := 0; i < nreq; i++ {
+						(&service{}).TakeTestRecording()
+						(&service{}).TakeSnapshot(-1)
+					}
+					outage <- ""
+				}()
+				select {
+				case <-outage:
+				case <-time.After(60 * time.Second):
+					c.Violation("request-stalls-pipeline", "requests during an outage", fmt.Sprintf("%d test-recording requests issued after the camera connection had ended did not all return within 60 s", nreq))
+					c.Abort()
+				}
+				rp, err := prepareConn(scratch, cfg, cam)
+				if err != nil {
+					c.Inconclusive("prepareConn: " + err.Error())
+					return
+				}
+				pframes := []*pFrame{}
+				for i := 0; i < 6; i++ {
+					pframes = append(pframes, &pFrame{Seq: 45000 + i, TimeOnMS: timeOnFor(45000 + i), FPATempCK: 30000, FPAFFCCK: 30000, Pix: newPix(cam.ResX, cam.ResY, uniformValue(45000+i))})
+				}
+				var processed int64
+				served := make(chan struct{})
+				go func() {
+					defer close(served)
+					rp.serve(pacedFeed(cam, pframes, 0), func(name string) {
+						if name == "conn.frame.processed" {
+							atomic.AddInt64(&processed, 1)
+						}
+					})
+				}()
+				select {
+				case <-served:
+				case <-time.After(60 * time.Second):
+					c.Violation("request-stalls-pipeline", "reconnect after requests during an outage", fmt.Sprintf("after %d test-recording requests during an outage the next connection processed %d of 6 frames in 60 s", nreq, atomic.LoadInt64(&processed)))
+					c.Abort()
+				}
+				if n := atomic.LoadInt64(&processed); n != 6 {
+					c.Violation("request-stalls-pipeline", "reconnect after requests during an outage", fmt.Sprintf("the connection after the outage processed %d of 6 frames (handleConn returned %v)", n, rp.Err))
+					return
+				}
+				rp.cleanup()
+				c.Count("outage_probes", 1)
+				c.Count("requests_during_outage", int64(2*nreq))
+			}
 			mu.Lock()
 			processor, headerInfo = nil, nil
 			mu.Unlock()
